@@ -267,3 +267,80 @@ Section RestoreChunk.
     apply import_weak in He as [He|He]; auto.
   Qed.
 End RestoreChunk.
+
+(* ------------------------------------------------------------------ *)
+(* the restorer reports completion only when every chunk is imported   *)
+(* ------------------------------------------------------------------ *)
+Section Done.
+  Variable H Hd : bytes -> bytes.
+  Variable decode : bytes -> option ptree.
+  Variable root : bytes.
+  Variable digests : list bytes.
+
+  (* ghost: the indices whose import succeeded since the restore was started *)
+  Definition gstep (g : rstate * list nat) (e : event) : rstate * list nat :=
+    let s' := fst (rstep H Hd decode root digests (fst g) e) in
+    match e, snd (rstep H Hd decode root digests (fst g) e) with
+    | EChunk i _, ROk => (s', i :: snd g)
+    | EChunk _ _, RProofFail => (s', [])
+    | EChunk _ _, _ => (s', snd g)
+    | EStart, ROk => (s', [])
+    | EStart, _ => (s', snd g)
+    | EAbort, _ => (s', [])
+    end.
+  Definition grun (st0 : store) (evs : list event) : rstate * list nat :=
+    fold_left gstep evs (mkr false [] st0, []).
+
+  Definition all_accounted (g : rstate * list nat) : Prop :=
+    active (fst g) = true -> forall j, j < length digests -> In j (pend (fst g)) \/ In j (snd g).
+
+  Lemma rm_in i j l : In j l -> j = i \/ In j (rm i l).
+  Proof.
+    intros Hin. destruct (Nat.eq_dec j i) as [->|Hne]; [now left|right].
+    unfold rm. apply filter_In. split; [assumption|]. apply negb_true_iff. now apply Nat.eqb_neq.
+  Qed.
+
+  Lemma gstep_inv g e : all_accounted g -> all_accounted (gstep g e).
+  Proof.
+    destruct g as [s imp]. unfold all_accounted, gstep. cbn [fst snd]. intros Inv.
+    destruct e as [i b| |]; cbn [rstep].
+    - destruct (active s) eqn:Ea; cbn [negb]; [|cbn [fst snd]; intros E; congruence].
+      destruct (existsb (Nat.eqb i) (pend s)); cbn [negb]; [|cbn [fst snd]; rewrite Ea; exact Inv].
+      destruct (nth_error digests i) as [d|]; [|cbn [fst snd]; rewrite Ea; exact Inv].
+      destruct (restore_chunk H Hd decode root d b (db s)) as [[] st']; cbn [fst snd active pend];
+        try (rewrite Ea; exact Inv); try discriminate.
+      intros _ j Hj. destruct (Inv eq_refl j Hj) as [Hp|Hi]; [|right; now right].
+      destruct (rm_in i j _ Hp) as [->|Hr]; [right; now left|now left].
+    - cbn [fst snd active]. discriminate.
+    - destruct (active s) eqn:Ea; cbn [fst snd active pend]; [rewrite Ea; exact Inv|].
+      intros _ j Hj. left. apply in_seq. lia.
+  Qed.
+
+  Lemma grun_inv st0 evs : all_accounted (grun st0 evs).
+  Proof.
+    unfold grun. assert (all_accounted (mkr false [] st0, [])) as I0 by (intros E; discriminate).
+    revert I0. generalize (mkr false [] st0, @nil nat). induction evs as [|e evs IH]; intros g Ig; cbn [fold_left];
+      [assumption|]. apply IH. now apply gstep_inv.
+  Qed.
+
+  (* after ANY sequence of starts, aborts, good, bad and duplicate deliveries:
+     a RestoreChunk call that ends the restore (done = true) is the call that
+     imports the last outstanding chunk; every other chunk was imported before *)
+  Theorem done_only_after_every_import_l st0 evs i b s' :
+    let g := grun st0 evs in
+    rstep H Hd decode root digests (fst g) (EChunk i b) = (s', ROk) ->
+    active (fst g) = true -> active s' = false ->
+    forall j, j < length digests -> j = i \/ In j (snd g).
+  Proof.
+    intros g Hstep Ea Ed j Hj. pose proof (grun_inv st0 evs) as Inv. fold g in Inv.
+    destruct g as [s imp]. cbn [fst snd] in *. unfold all_accounted in Inv. cbn [fst snd] in Inv.
+    destruct (Inv Ea j Hj) as [Hp|Hi]; [|now right]. left.
+    cbn [rstep] in Hstep. rewrite Ea in Hstep. cbn [negb] in Hstep.
+    destruct (existsb (Nat.eqb i) (pend s)); cbn [negb] in Hstep; [|congruence].
+    destruct (nth_error digests i) as [d|]; [|congruence].
+    destruct (restore_chunk H Hd decode root d b (db s)) as [[] st']; try congruence.
+    injection Hstep as <-. cbn [active] in Ed. apply negb_false_iff, Nat.eqb_eq in Ed.
+    destruct (rm_in i j _ Hp) as [->|Hr]; [reflexivity|].
+    destruct (rm i (pend s)); [destruct Hr|discriminate].
+  Qed.
+End Done.
